@@ -85,16 +85,17 @@ theorem printVariant_core (h : o.ignoreComments = true) (v : Variant) (n : Nat) 
     | fields fs =>
       simp only [printVariant, Variant.core, VBody.core, printVariantFields_core o h, h, Bool.not_true, Bool.false_and]
 
-theorem printVariants_vis (sep : Bytes) (vs : List Variant) (i : Nat) (force : Bool) :
-    printVariants o sep (vs.map Variant.vis) i force = printVariants o sep vs i force := by
+theorem printVariants_vis (sep : Bytes) (single : Bool) (vs : List Variant) (i : Nat) (force : Bool) :
+    printVariants o sep single (vs.map Variant.vis) i force = printVariants o sep single vs i force := by
   induction vs generalizing i force with
   | nil => rfl
   | cons v vs ih =>
     simp only [List.map_cons, printVariants, printVariant_vis, ih]
     rfl
 
-theorem printVariants_core (h : o.ignoreComments = true) (sep : Bytes) (vs : List Variant) (i : Nat) (force : Bool) :
-    printVariants o sep (vs.map Variant.core) i force = printVariants o sep vs i force := by
+theorem printVariants_core (h : o.ignoreComments = true) (sep : Bytes) (single : Bool) (vs : List Variant) (i : Nat)
+    (force : Bool) :
+    printVariants o sep single (vs.map Variant.core) i force = printVariants o sep single vs i force := by
   induction vs generalizing i force with
   | nil => rfl
   | cons v vs ih =>
@@ -120,7 +121,7 @@ theorem printWithNewLineOption_vis (t : TypeDef) (force isRet : Bool) :
   | struct s =>
     cases s with
     | union vs =>
-      simp only [TypeDef.vis, StructDef.vis, printWithNewLineOption, printVariants_vis, List.any_map]
+      simp only [TypeDef.vis, StructDef.vis, printWithNewLineOption, printVariants_vis, List.any_map, List.length_map]
       have : (Variant.hasBeforeCommentIn ∘ Variant.vis) = Variant.hasBeforeCommentIn := by
         funext v; exact hasBefore_vis v
       simp only [Function.comp_def] at this
@@ -136,7 +137,7 @@ theorem printWithNewLineOption_core (h : o.ignoreComments = true) (t : TypeDef) 
     cases s with
     | union vs =>
       simp only [TypeDef.core, StructDef.core, printWithNewLineOption, printVariants_core o h, h, Bool.not_true,
-        Bool.false_and]
+        Bool.false_and, List.length_map]
     | fields fs =>
       simp only [TypeDef.core, StructDef.core, printWithNewLineOption, printStructFields_core o h, h, Bool.not_true,
         Bool.false_and]
